@@ -37,7 +37,7 @@ type Header struct {
 // Event is one thing a target saw.
 type Event struct {
 	Seq    int      `json:"seq"`
-	Ev     string   `json:"ev"`     // "Req" | "Conn"
+	Ev     string   `json:"ev"`     // "Req" | "Conn" | "Connect" (a CONNECT seen by a proxy target)
 	Server string   `json:"server"` // name given to the server ("target", "decoy", ...)
 	Conn   string   `json:"conn"`   // RemoteAddr of the connection
 	State  string   `json:"state,omitempty"`
@@ -50,6 +50,7 @@ type Event struct {
 	CL     int64    `json:"cl,omitempty"`
 	Body   string   `json:"body,omitempty"`
 	Proto  string   `json:"proto,omitempty"`
+	Origin string   `json:"origin,omitempty"` // "Connect": local address of the proxy's connection to the origin (= the origin's RemoteAddr)
 }
 
 // Recorder collects the events of all servers attached to it under one sequence.
